@@ -22,35 +22,57 @@ FINDINGS = {
                                 "key leaves the old value (save d {k0:v0}; save d {k0:v1} reads back k0=v0)",
     "C27-stale-keys-kept": "hydrex.Save keeps keys that are no longer in the saved items",
     "C27-destroy-leaves-index": "hydrex.Destroy does not remove the domain from the index swamps of its keys",
+    "C27-empty-key-save-ignored": "a Save whose items contain the empty key reports ok but stores nothing: the core CatalogSaveMany fails on the "
+                                  "empty key and the gateway rejects the index request (swamp name with an empty part); GetCoreData stays empty",
+    "C27-key-with-separator-not-indexed": "a Save whose items contain a key with '/' stores the core data but writes NO index entry of that Save "
+                                          "(the 4-part index swamp name makes the gateway reject the whole many-to-many request; Hydrex swallows "
+                                          "the error): GetIndexData never lists the domain, also for the clean keys saved in the same call",
     "C27-index-inconsistent": "GetIndexData does not return exactly the domains whose core data holds the key",
 }
+
+
+def _norm(tok):
+    h = tok[1:]
+    for i in range(0, len(h), 2):
+        if h[i:i + 2] == "2f":
+            return "x" + h[:i]
+    return tok
+
+
+def _hostile_id(toks):
+    if "x" in toks:
+        return "C27-empty-key-save-ignored"
+    if any(_norm(t) != t for t in toks):
+        return "C27-key-with-separator-not-indexed"
+    return None
 
 
 def oracle(rep):
     """Spec on the implementation's replies only: core = last saved items (nothing after destroy);
     index k = domains whose last saved items contain k."""
-    spec = {}
+    spec, seen = {}, set()
     for op, line in zip(rep["ops"], rep["impl"]):
         f = op.split(" ")
         if line == "panic":
             return (None, "`%s` panicked" % op)
         if f[0] == "case":
-            spec = {}
+            spec, seen = {}, set()
         elif f[0] == "save":
             spec[(f[1], f[2])] = {} if f[3] == "-" else dict(kv.split("=") for kv in f[3].split(","))
+            seen |= set(spec[(f[1], f[2])])
         elif f[0] == "destroy":
             spec[(f[1], f[2])] = {}
         elif f[0] == "core":
             want = spec.get((f[1], f[2]), {})
             got = {} if line == "core -" else dict(kv.split("=") for kv in line.split(" ", 1)[1].split(","))
             if got != want:
-                fid = "C27-value-update-skipped" if set(got) == set(want) else "C27-stale-keys-kept"
+                fid = _hostile_id(seen) or ("C27-value-update-skipped" if set(got) == set(want) else "C27-stale-keys-kept")
                 return (fid, "GetCoreData(%s, %s) = %s, last saved items = %s" % (f[1], f[2], got, want))
         elif f[0] == "index":
             want = sorted(d for (i, d), items in spec.items() if i == f[1] and f[2] in items)
             got = [] if line == "index -" else line.split(" ", 1)[1].split(",")
             if got != want:
-                return ("C27-index-inconsistent", "GetIndexData(%s, %s) = %s, domains holding the key = %s" % (f[1], f[2], got, want))
+                return (_hostile_id(seen | {f[2]}) or "C27-index-inconsistent", "GetIndexData(%s, %s) = %s, domains holding the key = %s" % (f[1], f[2], got, want))
     return None
 
 
@@ -67,14 +89,16 @@ def run(ctx):
     K.report_mismatch(ctx, spec_violated)
     c = corrs[0][2] if corrs else K.Corr()
     hits = 0
-    if corrs and not c.mismatch:
+    if corrs:
         hits = U.oracle_sweep(ctx, c, "C27", corrs[0][1], oracle)
     U.leancheck(ctx, ["Hv.Props.C27", "Hv.Misc.Hydrex"])
     samples = [{"ops": [c.ops[i] for i in cs], "impl": [c.impl[i] for i in cs if i < len(c.impl)]} for cs in c.cases[:2]]
     return K.finish(
         ctx, "proof",
-        rule=("cases = 2 corpus histories + random histories (8..25 mutations/reads, then a full dump of 6 cores and 10 index entries) over "
-              "2 index names x 3 domains x 5 keys x 4 values; saves pick each key with probability 2/5, one save in five repeats the "
+        rule=("cases = 2 corpus histories + random histories (8..25 mutations/reads, then a full dump of every core and index entry) over "
+              "three name pools: plain (2 index names x 3 domains x 5 keys), adversarial (case variants, non-ASCII, punctuation, 180/200-byte "
+              "names; every third case) and hostile (empty key, '*', 'a/b' next to 'a'; one case in twenty); 4 values; thorough tier "
+              "adds `idle` ops that let the swamps pass their 1 s idle timeout (close, flush, reload); saves pick each key with probability 2/5, one save in five repeats the "
               "previous items of that domain; every mutation is followed by a read of the touched core and of one index entry; a case "
               "is non-trivial when it has >= 3 ops; distinct = distinct op texts; replies sorted by key / domain"),
         samples=samples, evaluations=len(c.ops), distinct_nontrivial=K.distinct_cases(c),
